@@ -66,17 +66,20 @@ static void build_inputs(void) {
 
 static uint8_t ENC[8192], ENC2[8192];
 static uint64_t DEC[200];
+/* prior contents of the caller's output buffers: part of the environment, not of the arguments. The baseline uses
+ * 0x11 / 0x22; the residue exploration varies them. */
+static int FILL_ENC = 0x11, FILL_DEC = 0x22;
 
 /* ---------------------------------------------------------------- operations */
 typedef void (*opfn)(obuf *o, const uint64_t *v, size_t n, int arg);
 
 static void op_delta_u(obuf *o, const uint64_t *v, size_t n, int arg) {
     (void)arg;
-    memset(ENC, 0x11, sizeof ENC);
+    memset(ENC, FILL_ENC, sizeof ENC);
     size_t w = varintDeltaEncodeUnsigned(ENC, v, n);
     o_u64(o, w);
     o_bytes(o, ENC, w);
-    memset(DEC, 0x22, sizeof DEC);
+    memset(DEC, FILL_DEC, sizeof DEC);
     size_t r = varintDeltaDecodeUnsigned(ENC, n, DEC);
     o_u64(o, r);
     o_bytes(o, DEC, n * 8);
@@ -87,11 +90,11 @@ static void op_delta_s(obuf *o, const uint64_t *v, size_t n, int arg) {
     for (size_t i = 0; i < n; i++) {
         sv[i] = (int64_t)(v[i] >> 1) * ((i & 1) ? -1 : 1);
     }
-    memset(ENC, 0x11, sizeof ENC);
+    memset(ENC, FILL_ENC, sizeof ENC);
     size_t w = varintDeltaEncode(ENC, sv, n);
     o_u64(o, w);
     o_bytes(o, ENC, w);
-    memset(DEC, 0x22, sizeof DEC);
+    memset(DEC, FILL_DEC, sizeof DEC);
     size_t r = varintDeltaDecode(ENC, n, (int64_t *)DEC);
     o_u64(o, r);
     o_bytes(o, DEC, n * 8);
@@ -108,7 +111,7 @@ static void op_for_enc(obuf *o, const uint64_t *v, size_t n, int arg) {
     /* arg 0: meta NULL, 1: zeroed meta, 2: batch with zeroed meta, 3: analyse then encode */
     varintFORMeta m;
     memset(&m, 0, sizeof m);
-    memset(ENC, 0x11, sizeof ENC);
+    memset(ENC, FILL_ENC, sizeof ENC);
     size_t w;
     if (arg == 3) {
         varintFORAnalyze(v, n, &m);
@@ -127,7 +130,7 @@ static void op_for_enc(obuf *o, const uint64_t *v, size_t n, int arg) {
 }
 static void op_for_dec(obuf *o, const uint64_t *v, size_t n, int arg) {
     varintFOREncode(ENC, v, n, NULL);
-    memset(DEC, 0x22, sizeof DEC);
+    memset(DEC, FILL_DEC, sizeof DEC);
     size_t r = arg ? varintFORBatchDecode(ENC, DEC, n) : varintFORDecode(ENC, DEC, n);
     o_u64(o, r);
     o_bytes(o, DEC, n * 8);
@@ -157,7 +160,7 @@ static void op_pfor_enc(obuf *o, const uint64_t *v, size_t n, int arg) {
     static const uint32_t T[3] = {90, 95, 99};
     varintPFORMeta m;
     memset(&m, 0, sizeof m);
-    memset(ENC, 0x11, sizeof ENC);
+    memset(ENC, FILL_ENC, sizeof ENC);
     size_t w = varintPFOREncode(ENC, v, (uint32_t)n, T[arg], &m);
     o_u64(o, w);
     o_bytes(o, ENC, w);
@@ -176,7 +179,7 @@ static void op_pfor_dec(obuf *o, const uint64_t *v, size_t n, int arg) {
     if (arg) {
         varintPFORReadMeta(ENC, &m); /* the way the adaptive layer calls it */
     }
-    memset(DEC, 0x22, sizeof DEC);
+    memset(DEC, FILL_DEC, sizeof DEC);
     size_t r = varintPFORDecode(ENC, DEC, &m);
     o_u64(o, r);
     o_bytes(o, DEC, n * 8);
@@ -187,14 +190,14 @@ static void op_pfor_dec(obuf *o, const uint64_t *v, size_t n, int arg) {
 static void op_group(obuf *o, const uint64_t *v, size_t n, int arg) {
     (void)arg;
     uint8_t fc = (uint8_t)(n > 64 ? 64 : n);
-    memset(ENC, 0x11, sizeof ENC);
+    memset(ENC, FILL_ENC, sizeof ENC);
     size_t w = varintGroupEncode(ENC, v, fc);
     o_u64(o, w);
     o_bytes(o, ENC, w);
     o_u64(o, varintGroupSize(v, fc));
     o_u64(o, varintGroupGetSize(ENC));
     uint8_t got = 0;
-    memset(DEC, 0x22, sizeof DEC);
+    memset(DEC, FILL_DEC, sizeof DEC);
     size_t r = varintGroupDecode(ENC, DEC, &got, 64);
     o_u64(o, r);
     o_u64(o, got);
@@ -204,7 +207,7 @@ static void op_group(obuf *o, const uint64_t *v, size_t n, int arg) {
     o_u64(o, f);
 }
 static void op_dict(obuf *o, const uint64_t *v, size_t n, int arg) {
-    memset(ENC, 0x11, sizeof ENC);
+    memset(ENC, FILL_ENC, sizeof ENC);
     size_t w = varintDictEncode(ENC, v, n);
     if (arg == 0) {
         o_u64(o, w);
@@ -218,7 +221,7 @@ static void op_dict(obuf *o, const uint64_t *v, size_t n, int arg) {
         o_u64(o, st.dictBytes);
         o_u64(o, st.indexBytes);
     } else {
-        memset(DEC, 0x22, sizeof DEC);
+        memset(DEC, FILL_DEC, sizeof DEC);
         size_t r = varintDictDecodeInto(ENC, w, DEC, n);
         o_u64(o, r);
         o_bytes(o, DEC, n * 8);
@@ -235,6 +238,7 @@ static void op_dict(obuf *o, const uint64_t *v, size_t n, int arg) {
             o_u64(o, d->size);
             o_u64(o, (uint64_t)d->indexWidth);
             o_u64(o, (uint64_t)varintDictFind(d, v[n / 2]));
+            memset(ENC2, FILL_ENC, sizeof ENC2);
             size_t w2 = varintDictEncodeWithDict(ENC2, d, v, n);
             o_u64(o, w2);
             o_bytes(o, ENC2, w2);
@@ -245,14 +249,14 @@ static void op_dict(obuf *o, const uint64_t *v, size_t n, int arg) {
 static void op_rle(obuf *o, const uint64_t *v, size_t n, int arg) {
     varintRLEMeta m;
     memset(&m, 0, sizeof m);
-    memset(ENC, 0x11, sizeof ENC);
+    memset(ENC, FILL_ENC, sizeof ENC);
     size_t w = arg ? varintRLEEncodeWithHeader(ENC, v, n, &m) : varintRLEEncode(ENC, v, n, &m);
     o_u64(o, w);
     o_bytes(o, ENC, w);
     o_u64(o, m.count);
     o_u64(o, m.runCount);
     o_u64(o, m.encodedSize);
-    memset(DEC, 0x22, sizeof DEC);
+    memset(DEC, FILL_DEC, sizeof DEC);
     size_t r = arg ? varintRLEDecodeWithHeader(ENC, DEC, n) : varintRLEDecode(ENC, DEC, n);
     o_u64(o, r);
     o_bytes(o, DEC, n * 8);
@@ -275,14 +279,14 @@ static void op_elias(obuf *o, const uint64_t *v, size_t n, int arg) {
     }
     varintEliasMeta m;
     memset(&m, 0, sizeof m);
-    memset(ENC, 0x11, sizeof ENC);
+    memset(ENC, FILL_ENC, sizeof ENC);
     size_t w = arg ? varintEliasDeltaEncodeArray(ENC, t, n, &m) : varintEliasGammaEncodeArray(ENC, t, n, &m);
     o_u64(o, w);
     o_bytes(o, ENC, w);
     o_u64(o, m.count);
     o_u64(o, m.totalBits);
     o_u64(o, m.encodedBytes);
-    memset(DEC, 0x22, sizeof DEC);
+    memset(DEC, FILL_DEC, sizeof DEC);
     size_t r = arg ? varintEliasDeltaDecodeArray(ENC, m.totalBits, DEC, n) : varintEliasGammaDecodeArray(ENC, m.totalBits, DEC, n);
     o_u64(o, r);
     o_bytes(o, DEC, n * 8);
@@ -298,8 +302,8 @@ static void op_bp128(obuf *o, const uint64_t *v, size_t n, int arg) {
     /* arg: 0 raw64, 1 delta64, 2 raw32, 3 delta32 */
     varintBP128Meta m;
     memset(&m, 0, sizeof m);
-    memset(ENC, 0x11, sizeof ENC);
-    memset(DEC, 0x22, sizeof DEC);
+    memset(ENC, FILL_ENC, sizeof ENC);
+    memset(DEC, FILL_DEC, sizeof DEC);
     uint64_t s[160];
     uint32_t s32[160], d32[160];
     memcpy(s, v, n * 8);
@@ -333,13 +337,13 @@ static void op_bp128(obuf *o, const uint64_t *v, size_t n, int arg) {
         break;
     case 2:
         w = varintBP128Encode32(ENC, s32, n, &m);
-        memset(d32, 0x22, sizeof d32);
+        memset(d32, FILL_DEC, sizeof d32);
         r = varintBP128Decode32(ENC, d32, n);
         o_bytes(o, d32, n * 4);
         break;
     default:
         w = varintBP128DeltaEncode32(ENC, s32, n, &m);
-        memset(d32, 0x22, sizeof d32);
+        memset(d32, FILL_DEC, sizeof d32);
         r = varintBP128DeltaDecode32(ENC, d32, n);
         o_bytes(o, d32, n * 4);
         break;
@@ -353,7 +357,7 @@ static void op_adaptive_enc(obuf *o, const uint64_t *v, size_t n, int arg) {
     /* arg -1: auto, 0..5 forced */
     varintAdaptiveMeta m;
     memset(&m, 0, sizeof m);
-    memset(ENC, 0x11, sizeof ENC);
+    memset(ENC, FILL_ENC, sizeof ENC);
     uint64_t t[160];
     memcpy(t, v, n * 8);
     if (arg == VARINT_ADAPTIVE_BITMAP) { /* domain: strictly increasing < 65536 */
@@ -385,7 +389,7 @@ static void op_adaptive_dec(obuf *o, const uint64_t *v, size_t n, int arg) {
     (void)w;
     varintAdaptiveMeta m;
     memset(&m, 0, sizeof m);
-    memset(DEC, 0x22, sizeof DEC);
+    memset(DEC, FILL_DEC, sizeof DEC);
     size_t r = varintAdaptiveDecode(ENC, DEC, n, &m);
     o_u64(o, r);
     o_bytes(o, DEC, n * 8);
@@ -429,11 +433,11 @@ static void op_float(obuf *o, const uint64_t *v, size_t n, int arg) {
             d[i] = 0.0;
         }
     }
-    memset(ENC, 0x11, sizeof ENC);
+    memset(ENC, FILL_ENC, sizeof ENC);
     size_t w = varintFloatEncode(ENC, d, n, (varintFloatPrecision)(arg & 3), (varintFloatEncodingMode)(arg >> 2));
     o_u64(o, w);
     o_bytes(o, ENC, w);
-    memset(out, 0x22, sizeof out);
+    memset(out, FILL_DEC, sizeof out);
     size_t r = varintFloatDecode(ENC, n, out);
     o_u64(o, r);
     o_bytes(o, out, n * 8);
@@ -453,8 +457,9 @@ static void op_bitmap(obuf *o, const uint64_t *v, size_t n, int arg) {
         varintBitmapAddRange(a, 100, 5000);
         varintBitmapAdd(a, 7);
     }
-    memset(ENC, 0x11, sizeof ENC);
+    memset(ENC, FILL_ENC, sizeof ENC);
     static uint8_t big[9000];
+    memset(big, FILL_ENC, sizeof big);
     size_t w = varintBitmapEncode(a, big);
     o_u64(o, w);
     o_bytes(o, big, w > 600 ? 600 : w);
@@ -484,13 +489,13 @@ static void op_scalar(obuf *o, const uint64_t *v, size_t n, int arg) {
     (void)arg;
     for (size_t i = 0; i < n && i < 24; i++) {
         uint8_t b[16];
-        memset(b, 0x11, sizeof b);
+        memset(b, FILL_ENC, sizeof b);
         int l = (int)varintTaggedPut64(b, v[i]);
         o_bytes(o, b, (size_t)l);
         uint64_t g = 0;
         o_u64(o, (uint64_t)varintTaggedGet64(b, &g));
         o_u64(o, g);
-        memset(b, 0x11, sizeof b);
+        memset(b, FILL_ENC, sizeof b);
         l = (int)varintExternalPut(b, v[i]);
         o_bytes(o, b, (size_t)l);
         o_u64(o, varintExternalGet(b, (varintWidth)l));
@@ -625,7 +630,10 @@ typedef struct {
 static shm_t *SHM;
 
 /* hist: up to 3 op indices (last one is observed); residue parameters */
+static int OUTFILL = -1; /* -1: baseline output-buffer contents; otherwise the byte both kinds of output buffer hold before the call */
 static int run_child(const int *hist, int nh, int paint, uint64_t word, int fill, int recycle, const char **why) {
+    FILL_ENC = OUTFILL < 0 ? 0x11 : OUTFILL;
+    FILL_DEC = OUTFILL < 0 ? 0x22 : OUTFILL;
     SHM->done = 0;
     SHM->stage = 0;
     SHM->o.len = 0;
@@ -803,16 +811,20 @@ int main(int argc, char **argv) {
                             complete = 0;
                             break;
                         }
+                        /* the caller's output buffers hold 00 / ff / the baseline pattern before the call */
+                        static const int OF[3] = {0x00, 0xff, -1};
+                        OUTFILL = OF[(wi + fi) % 3];
                         /* with recycling the operation is run twice so that the second run receives the first one's freed blocks */
                         int h[2] = {c, c};
                         int nh = rc ? 2 : 1;
                         if (run_child(h + (2 - nh), nh, 1, words[wi], fills[fi], rc, &why)) {
-                            vh_fail(OPS[c].name, why, "untagged", "residue {stack word 0x%" PRIx64 ", heap fill %02x, recycle %d} before %s[input %d]", words[wi], fills[fi], rc, OPS[c].name, OPS[c].input);
+                            vh_fail(OPS[c].name, why, "untagged", "residue {stack word 0x%" PRIx64 ", heap fill %02x, recycle %d, output buffers prefilled %02x} before %s[input %d]", words[wi], fills[fi], rc, OUTFILL & 0xff, OPS[c].name, OPS[c].input);
                         } else {
-                            char how[96];
-                            snprintf(how, sizeof how, "residue {stack word 0x%" PRIx64 ", heap fill %02x, recycle %d}", words[wi], fills[fi], rc);
+                            char how[128];
+                            snprintf(how, sizeof how, "residue {stack word 0x%" PRIx64 ", heap fill %02x, recycle %d, output buffers prefilled %s}", words[wi], fills[fi], rc, OUTFILL == 0 ? "00" : OUTFILL == 0xff ? "ff" : "as baseline");
                             compare(h + (2 - nh), nh, how);
                         }
+                        OUTFILL = -1;
                         vh_count("cases", 1);
                         vh_count("calls", (uint64_t)nh);
                     }
